@@ -136,6 +136,13 @@ def run(ctx, R, tier):
     R.check(ok, "C07-R2", "writer-tag:exceptions", "exceptions are tagged <module>.<class name>", c2d.loc(exc_dicts[0]), "tag expression is `%s`" % unparse(wv))
     # namespace fidelity
     rd = ctx.rd(d2c)
+    nsvars = set()
+    for n in walk_no_nested(d2c.node):
+        if isinstance(n, ast.Assign) and isinstance(n.targets[0], ast.Tuple) and len(n.targets[0].elts) == 2 and isinstance(n.value, ast.Call) and \
+                isinstance(n.value.func, ast.Attribute) and n.value.func.attr == "split" and isinstance(n.targets[0].elts[0], ast.Name):
+            nsvars.add(n.targets[0].elts[0].id)
+    if not nsvars:
+        raise AnalysisError("dict_to_class: `namespace, short = classname.split('.', 1)` vanished")
     sites = [(c, c.args[0]) for c in ctx.calls_to(d2c, mke.qualname) if c.args]
     n_ns = 0
     for c, a in sites:
@@ -149,9 +156,9 @@ def run(ctx, R, tier):
                     if pol is not True or not isinstance(atom, ast.Compare) or len(atom.ops) != 1:
                         return False
                     if isinstance(atom.ops[0], ast.In) and isinstance(atom.comparators[0], (ast.Tuple, ast.List, ast.Set)):
-                        return {e.value for e in atom.comparators[0].elts if isinstance(e, ast.Constant)} <= names and unparse(atom.left) == "namespace"
+                        return {e.value for e in atom.comparators[0].elts if isinstance(e, ast.Constant)} <= names and unparse(atom.left) in nsvars
                     if isinstance(atom.ops[0], ast.Eq) and isinstance(atom.comparators[0], ast.Constant):
-                        return atom.comparators[0].value in names and unparse(atom.left) == "namespace"
+                        return atom.comparators[0].value in names and unparse(atom.left) in nsvars
                     return False
                 return pred
 
